@@ -22,7 +22,8 @@ def garbage? : String → Option Garbage
   | _ => none
 
 /-- `plain` | `garbage:<kind>:<slots>:<fuel>` | `garbagenog:<kind>:<slots>` | `wrongcommit:<slots>` | `wrongside:<slots>`
-    | `shortr` | `shortxr` | `adaptive:g_r`   (`adaptive:enc_x_r|enc_r|label|Q` are answered `skip:<why no such attack exists>`) -/
+    | `shortr` | `shortxr` | `adaptive:g_r`
+    | `swap:all` | `swap:one:<slots>` | `cross:<i>:<j>` | `commit-other-side:<slots>` | `open-plus-order:<slots>`   (`adaptive:enc_x_r|enc_r|label|Q` are answered `skip:<why no such attack exists>`) -/
 def strategy? (s : String) : Option Strategy :=
   match s.splitOn ":" with
   | ["plain"] => some .plain
@@ -33,6 +34,11 @@ def strategy? (s : String) : Option Strategy :=
   | ["shortr"] => some .shortR
   | ["shortxr"] => some .shortXR
   | ["adaptive", "g_r"] => some .adaptiveGR
+  | ["swap", "all"] => some (.swapEnc (List.range 65536))
+  | ["swap", "one", l] => do pure (.swapEnc (← natList? l))
+  | ["cross", i, j] => do pure (.cross (← i.toNat?) (← j.toNat?))
+  | ["commit-other-side", l] => do pure (.commitOtherSide (← natList? l))
+  | ["open-plus-order", l] => do pure (.openPlusOrder (← natList? l))
   | _ => none
 
 /-- `venc prove <curve k|e> <x> <keyid> <n> <label> <param|none> <tape>` → `ok:<proof bytes>:<tape used>` | `err:<name>` | `panic`
